@@ -28,7 +28,12 @@ def real_streams(seed, tier):
     bn = {"t": "bn", "v": "b"}
     tr = {"r": "triple", "s": bn, "p": bn, "o": bn}
     out.append(("tiny/leading-empty-frames", wire.enc_delimited([{"rows": []}, {"rows": []}, {"rows": [opt, tr]}, {"rows": [tr]}]), True))
-    out.append(("tiny/frame-length-10", wire.enc_delimited([{"rows": [opt]}, {"rows": [tr]}]), True))
+    out.append(("tiny/options-only-first-frame", wire.enc_delimited([{"rows": [opt]}, {"rows": [tr]}]), True))
+    # first frames of exactly 10 (= 0x0A, the magic byte of the detector), 11, 12 and 13 bytes: the header is 0A 0A 08 / 0B 0A 09 / ...
+    for label_, o_ in (("10", dict(opt, lt=0)), ("11", dict(opt, lt=0, mn=200)), ("12", opt), ("13", dict(opt, lt=0, name="a"))):
+        d_ = wire.enc_delimited([{"rows": [o_]}, {"rows": [tr]}, {"rows": [tr]}])
+        assert d_[0] == int(label_), (label_, d_[:4].hex())
+        out.append((f"tiny/first-frame-{label_}-bytes", d_, True))
     return out
 
 
